@@ -828,6 +828,39 @@ func (g *Gen) opGCBurst(conns []*Client) {
 	sort.Strings(held)
 	r := g.sample("gcroot", held)
 	p := g.sample("gcother", g.rids)
+	if rapid.IntRange(0, 3).Draw(g.t, "gcshare") > 0 {
+		// prefer a tree that shares a child with what the client holds and has
+		// another child still to be fetched
+		var cands []string
+		for _, d := range g.w.Cfg.Resources {
+			if d.QueryMap != nil || d.PerCID || d.Name == r || c.Ref.Direct[d.Name] > 0 {
+				continue
+			}
+			shared, fresh := false, false
+			chk := func(v Val) {
+				if v.K == 'r' {
+					if _, ok := c.Ref.Held[v.R]; ok {
+						shared = true
+					} else {
+						fresh = true
+					}
+				}
+			}
+			for _, v := range d.Model {
+				chk(v)
+			}
+			for _, v := range d.Coll {
+				chk(v)
+			}
+			if shared && fresh {
+				cands = append(cands, d.Name)
+			}
+		}
+		if len(cands) > 0 {
+			sort.Strings(cands)
+			p = g.sample("gcshared", cands)
+		}
+	}
 	if p == r {
 		return
 	}
